@@ -331,7 +331,8 @@ func Exp2(d Decimal) Decimal {
 	var expInt int16
 
 	if dSigInt != 0 {
-		if dSigInt > exponentBias+maxDigits {
+		// 2**x leaves the range once |x| exceeds (6176+35) / log10(2) ≈ 20633.
+		if dSigInt > 20640 {
 			if d.Signbit() {
 				return zero(false)
 			}
